@@ -16,3 +16,6 @@ theories/Pipe/Token.vos theories/Pipe/Token.vok theories/Pipe/Token.required_vos
 theories/Pipe/Closed.vo theories/Pipe/Closed.glob theories/Pipe/Closed.v.beautified theories/Pipe/Closed.required_vo: theories/Pipe/Closed.v theories/Pipe/Model.vo theories/Pipe/Base.vo theories/Pipe/Data.vo theories/Pipe/Notify.vo theories/Pipe/Token.vo
 theories/Pipe/Closed.vio: theories/Pipe/Closed.v theories/Pipe/Model.vio theories/Pipe/Base.vio theories/Pipe/Data.vio theories/Pipe/Notify.vio theories/Pipe/Token.vio
 theories/Pipe/Closed.vos theories/Pipe/Closed.vok theories/Pipe/Closed.required_vos: theories/Pipe/Closed.v theories/Pipe/Model.vos theories/Pipe/Base.vos theories/Pipe/Data.vos theories/Pipe/Notify.vos theories/Pipe/Token.vos
+theories/Pipe/Terminal.vo theories/Pipe/Terminal.glob theories/Pipe/Terminal.v.beautified theories/Pipe/Terminal.required_vo: theories/Pipe/Terminal.v theories/Pipe/Model.vo theories/Pipe/Base.vo theories/Pipe/Data.vo theories/Pipe/Notify.vo theories/Pipe/Token.vo theories/Pipe/Closed.vo
+theories/Pipe/Terminal.vio: theories/Pipe/Terminal.v theories/Pipe/Model.vio theories/Pipe/Base.vio theories/Pipe/Data.vio theories/Pipe/Notify.vio theories/Pipe/Token.vio theories/Pipe/Closed.vio
+theories/Pipe/Terminal.vos theories/Pipe/Terminal.vok theories/Pipe/Terminal.required_vos: theories/Pipe/Terminal.v theories/Pipe/Model.vos theories/Pipe/Base.vos theories/Pipe/Data.vos theories/Pipe/Notify.vos theories/Pipe/Token.vos theories/Pipe/Closed.vos
